@@ -20,7 +20,7 @@ ASSUMPTIONS = ['process table simulated (ProcSim) and validated against real /bi
                'fates: all exit codes 0..255 and signals 1..31,34..64 (with/without core bit) for sequences <= 2; a 12-fate representative set for all sequences <= 3']
 REQUIRED_FLAGS = {'death_between_observations': 1, 'signal_fate': 1, 'core_bit': 1, 'popen': 1, 'run': 1, 'real_kernel': 1}
 
-OPS = ['isalive', 'wait', 'close', 'close_noforce', 'terminate', 'terminate_force', 'expect_eof', 'read_until_eof', 'kill_0']
+OPS = ['isalive', 'wait', 'close', 'close_noforce', 'terminate', 'terminate_force', 'expect_eof', 'read_until_eof', 'kill_0', 'wait_interrupted']
 REP_FATES = [('exit', 0), ('exit', 1), ('exit', 2), ('exit', 127), ('exit', 128), ('exit', 255),
              ('sig', 1), ('sig', 2), ('sig', 9), ('sig', 15), ('sig', 11, True), ('sig', 64)]
 
